@@ -35,8 +35,31 @@ func init() {
 
 type capLogger struct {
 	mu   sync.Mutex
-	recs []string // every format, every argument, and the rendered text
-	text []string // level + rendered text only
+	recs []string  // every format, every argument, and the rendered text
+	text []string  // level + rendered text only
+	late []lateRec // every record as it was handed over (format + arguments), to be rendered again later
+}
+
+// lateRec: what a batching / asynchronous logger keeps of a record until it gets round to writing it
+type lateRec struct {
+	f    string
+	a    []interface{}
+	then string // how it read when it was handed over
+}
+
+// flushLate renders every record again NOW, the way a logger that formats in batches would, and adds the renderings to
+// what is searched for the password: a record is the format and its arguments, and neither may come to contain the
+// password after the call either (an argument that aliases a buffer the library goes on writing to would)
+func (l *capLogger) flushLate() {
+	l.mu.Lock()
+	defer l.mu.Unlock()
+	for _, r := range l.late {
+		l.recs = append(l.recs, fmt.Sprintf(r.f, r.a...))
+		for _, x := range r.a {
+			l.recs = append(l.recs, fmt.Sprintf("%s", x))
+		}
+	}
+	l.late = nil
 }
 
 func (l *capLogger) add(level, f string, a ...interface{}) {
@@ -49,6 +72,17 @@ func (l *capLogger) add(level, f string, a ...interface{}) {
 	l.mu.Lock()
 	defer l.mu.Unlock()
 	l.recs = append(append(l.recs, recs...), text)
+	// a logger that writes in batches renders a record some calls after it was handed over: render the last few again
+	// at every call, and keep whatever now reads differently
+	for i := len(l.late) - 1; i >= 0 && i >= len(l.late)-40; i-- {
+		if now := fmt.Sprintf(l.late[i].f, l.late[i].a...); now != l.late[i].then {
+			l.recs = append(l.recs, now)
+			for _, x := range l.late[i].a {
+				l.recs = append(l.recs, fmt.Sprintf("%s", x))
+			}
+		}
+	}
+	l.late = append(l.late, lateRec{f, a, text})
 	l.text = append(l.text, level+" "+text)
 }
 func (l *capLogger) Debug(f string, a ...interface{}) { l.add("D", f, a...) }
@@ -144,9 +178,10 @@ func c20Session(pass string, capNeg, track bool, scenario int) (*capLogger, []st
 		pre(conn)
 		if conn.Connect() == nil {
 			sc := <-conns
-			for i := 0; i < 4; i++ {
+			for i := 0; i < 3; i++ {
 				conn.Raw("PRIVMSG #c :burst")
 			}
+			conn.Raw("PRIVMSG #c :" + strings.Repeat("the last line of this session is longer than any password; ", 2)) // whatever still refers to it later
 			sc.WaitLines(6, 8*time.Second)
 			conn.Close()
 			if conn.Connect() == nil {
@@ -324,6 +359,7 @@ func c20(c *Ctx) {
 			scenario = 8 // once per run: takes a few seconds of real rate limiting
 		}
 		lg, wire := c20Session(pass, capNeg, track, scenario)
+		lg.flushLate()
 		desc := fmt.Sprintf("session scenario=%d capneg=%v tracking=%v password=%q", scenario, capNeg, track, pass)
 		rp := map[string]interface{}{"op": "log-session", "scenario": scenario, "capneg": capNeg, "tracking": track, "password_hex": drv.H(pass)}
 		tag := ""
